@@ -6,13 +6,16 @@
 EXTENDS Errno
 CONSTANT N
 VARIABLE h
-svars == <<real, saved, stk, obs, h>>
+svars == <<real, saved, stk, obs, boot, pend, h>>
 Log(x) == h' = Append(h, x)
 SimInit == Init /\ h = << <<"Init", real>> >>
 SimNext == \E t \in Threads :
              \/ \E v \in Vals : \/ Set(t, v) /\ Log(<<"Set", t, v>>)
                                 \/ Clobber(t, v) /\ Log(<<"Clobber", t, v>>)
                                 \/ CSet(t, v) /\ Log(<<"CSet", t, v>>)
+                                \/ EmbStart(t, v) /\ Log(<<"EmbStart", t, v>>)
+             \/ EmbCall(t) /\ Log(<<"EmbCall", t>>)
+             \/ EmbForward(t) /\ Log(<<"EmbForward", t>>)
              \/ Get(t) /\ Log(<<"Get", t, obs'[t][1]>>)
              \/ CallExit(t) /\ Log(<<"CallExit", t>>)
              \/ CbExit(t) /\ Log(<<"CbExit", t, obs'[t][1]>>)
